@@ -888,6 +888,13 @@ class World:
         masterapi.delete_apps(self.admin, [op['name']])
         self.dirty_since_cycle = True
 
+    def op_apps_event(self, op):
+        """An 'apps' re-evaluation event naming instances (what
+        update_app_priorities posts), possibly for instances that are gone
+        by the time it is handled."""
+        masterapi.create_event(self.admin, 1, 'apps', list(op['names']))
+        self.dirty_since_cycle = True
+
     def op_app_prio(self, op):
         if self.zk.nodes.get(z.path.scheduled(op['name'])) is None:
             return
@@ -2394,6 +2401,130 @@ class Generator:
                 return {'op': 'app_delete', 'name': name}
         return None
 
+    def g_delete_then_apps_event(self, world):
+        """A placed instance is deleted while an 'apps' event naming it is
+        on its way; the master handles the event before it sees the new
+        /scheduled listing."""
+        stored = world.stored_placement()
+        names = sorted(a for a in stored if a in self._scheduled(world))
+        if not names:
+            return None
+        name = self.rng.choice(names)
+        self.follow.extend([
+            {'op': 'app_delete_quiet', 'name': name},
+            {'op': 'apps_event', 'names': [name]},
+            {'op': 'snap', 'path': z.EVENTS}, {'op': 'process'},
+            {'op': 'drain'}, {'op': 'master_cycle'},
+            {'op': 'master_cycle'}])
+        return {'op': 'drain'}
+
+    def g_move_partition(self, world):
+        """The allocation a placed instance is assigned to moves to another
+        partition (or a new assignment sends the instance there); the next
+        cycle has to take it off its server and publish that."""
+        parts = self.config['partitions']
+        if len(parts) < 2 or world.master is None:
+            return None
+        stored = world.stored_placement()
+        names = sorted(a for a in stored if a in self._scheduled(world))
+        if not names:
+            return None
+        name = self.rng.choice(names)
+        allocs = [dict(a) for a in (world._zk_obj(z.ALLOCATIONS) or [])]
+        appid = name.split('#')[0]
+        import fnmatch
+        hit = None
+        for alloc in allocs:
+            for asg in alloc.get('assignments', []):
+                if fnmatch.fnmatchcase(appid, asg['pattern']):
+                    hit = alloc
+                    break
+            if hit:
+                break
+        if hit is not None:
+            others = [p for p in parts if p != hit.get('partition')]
+            hit['partition'] = self.rng.choice(others)
+        else:
+            others = [p for p in parts if p != '_default']
+            allocs.append({
+                'name': 'tm/mv%d' % self.rng.randint(0, 9),
+                'partition': self.rng.choice(others),
+                'memory': '0M', 'cpu': '0%', 'disk': '0M', 'rank': 100,
+                'rank_adjustment': 0, 'max_utilization': None, 'traits': [],
+                'assignments': [{'pattern': appid + '*', 'priority': 1}]})
+        self.follow.extend([{'op': 'drain'},
+                            {'op': 'master_cycle', 'focus': True}])
+        return {'op': 'allocations', 'allocations': allocs}
+
+    def g_lease_squeeze_failover(self, world):
+        """Time passes until a server is too close to its reboot for a NEW
+        lease of the length a running instance has - the running lease still
+        fits - and the master fails over (C11 probes after the cycle)."""
+        master = world.master
+        if master is None:
+            return None
+        now = world.clock.peek()
+        cands = []
+        for name in sorted(master.cell.apps):
+            app = master.cell.apps[name]
+            srv = master.servers.get(app.server) if app.server else None
+            if app.lease and srv is not None and srv.valid_until and \
+                    srv.state is scheduler.State.up:
+                dt = srv.valid_until - app.lease - now
+                if 0 < dt + 60 < app.placement_expiry - now - 60:
+                    cands.append(dt + 60)
+        if not cands:
+            return None
+        self.follow.extend([{'op': 'drain'}, {'op': 'master_cycle'},
+                            {'op': 'c11_probe'}])
+        return {'op': 'advance', 'dt': round(self.rng.choice(cands), 3)}
+
+    def g_flap_then_place(self, world, staged=False):
+        """A server keeps an instance through a presence flap (its record is
+        then older than the server's presence), later instances are placed
+        on it; then the master fails over."""
+        stored = world.stored_placement()
+        cands = []
+        for app, recs in stored.items():
+            man = world._zk_obj(z.path.scheduled(app)) or {}
+            if man.get('data_retention_timeout') in ('30s', '5m', '1h'):
+                for srv, _d in recs:
+                    if world.zk.nodes.get(z.path.server_presence(srv)):
+                        cands.append(srv)
+        if not cands:
+            if staged:
+                return None
+            proid = self.rng.choice(self.config['proids'])
+            manifest = {'memory': '256M', 'cpu': '10%', 'disk': '256M',
+                        'affinity': '%s.db' % proid,
+                        'data_retention_timeout': '1h'}
+            limits = self.config['aff_limits'].get(manifest['affinity'])
+            if limits:
+                manifest['affinity_limits'] = limits
+            self.follow.extend([{'op': 'drain'}, {'op': 'master_cycle'},
+                                {'gen': 'flap_then_place'}])
+            return {'op': 'app_create', 'app_id': '%s.db' % proid,
+                    'manifest': manifest, 'count': 2}
+        srv = self.rng.choice(sorted(set(cands)))
+        proid = self.rng.choice(self.config['proids'])
+        manifest = {'memory': '256M', 'cpu': '10%', 'disk': '256M',
+                    'affinity': '%s.job' % proid}
+        limits = self.config['aff_limits'].get(manifest['affinity'])
+        if limits:
+            manifest['affinity_limits'] = limits
+        if self.rng.random() < 0.5:
+            manifest['schedule_once'] = True
+        else:
+            manifest['lease'] = '1h'
+        self.follow.extend([
+            {'op': 'drain'}, {'op': 'master_cycle'},
+            {'op': 'presence_up', 'name': srv}, {'op': 'drain'},
+            {'op': 'master_cycle'},
+            {'op': 'app_create', 'app_id': '%s.job' % proid,
+             'manifest': manifest, 'count': 3},
+            {'op': 'drain'}, {'op': 'master_cycle'}, {'op': 'c11_probe'}])
+        return {'op': 'presence_down', 'name': srv}
+
     def g_relimit_generation(self, world):
         """Every instance of an affinity is deleted, the affinity's limits
         are redeclared (often the same values on other levels), and a new
@@ -2510,6 +2641,8 @@ OP_WEIGHTS = [
     ('detach_then_touch_server', 5), ('reparent_loaded', 5),
     ('identity_handover_crash', 3), ('relimit_generation', 5),
     ('identity_evict_restore', 3), ('drop_giants', 0),
+    ('delete_then_apps_event', 3), ('move_partition', 3),
+    ('lease_squeeze_failover', 3), ('flap_then_place', 5),
 ]
 
 
